@@ -32,7 +32,8 @@ RULE = (
     "slotted in every order; plain classes in between; mutable hooked ancestors above the first frozen class; cache_hash; "
     "exception roots; auto_exc on/off) with at least one class declared frozen, extended by 0-2 plain (undecorated) subclasses "
     "below the last attrs class (dict or __slots__=()), field-less mixins (plain / attrs frozen / attrs mutable / defining "
-    "__setattr__ or __delattr__) before or after the main base of any class, body-defined __setattr__/__delattr__, "
+    "__setattr__ or __delattr__) before or after the main base of any class, body-defined __setattr__/__delattr__ with and without "
+    "auto_detect (overridden by frozen=True under attr.s; kept below hooked and frozen bases), "
     "getstate_setstate on/off/default, auto_detect; streams: valid (80%), K05a shapes (custom definer first, 8%), malformed "
     "(frozen + on_setattr / custom __setattr__, incl. the init=False-without-default field, 12%). Per hierarchy several "
     "operation histories of length 1..6 (quick) / 1..8 (thorough) over {setattr, delattr, augmented assignment} x {every "
@@ -46,9 +47,10 @@ RULE = (
 ASSUMPTIONS = [
     "CPython attribute lookup, object.__setattr__/__delattr__, BaseException bookkeeping (raise / raise from / chaining / with_traceback / add_note) and the state protocols of copy/pickle are modelled as small trusted functions and diff-tested here",
     "the MRO and direct bases of every class are CPython's (computed on undecorated twins of the hierarchy) and are passed to the model",
-    "layout facts of the leaf (which names are slots along the MRO, whether instances have a __dict__, which __getstate__/__hash__ the leaf resolves) are read from the real class; C08/C10/C04 check how they come about",
+    "layout facts of the leaf (which names are slots along the MRO, whether instances have a __dict__, whether any __slots__ is non-empty, which __hash__ the leaf resolves) are read from the real class; C08/C04 check how they come about",
     "expected field lists per class are computed from the specification as in C01 (C07 checks collection)",
-    "copy/pickle operations are generated only where the leaf resolves object's or its own class's attrs-generated state methods (C10's known findings K4 are kept out); hash operations only where the leaf resolves the identity hash or the __hash__ generated for the class that provides the initializer (K1 kept out)",
+    "which state protocol (object's / attrs-generated pair of the initializer's class / slots without __getstate__) the leaf resolves is PREDICTED from the specification by the model (getstate_setstate argument, slots, or inheriting a generated pair: attrs then generates an own pair) and never read off the real class, so mixed slotted/dict frozen chains are copied and pickled under every protocol and compared field by field (plus: the copy hashes); copy operations are only left out for exception roots and for an explicit getstate_setstate=False on a class below a generated pair (the user's opt-out); hash operations only where the leaf resolves the identity hash or the __hash__ generated for the class that provides the initializer (K1 kept out)",
+    "what type(inst).__setattr__/__delattr__ resolve to (frozen / object's / hook closure / body-defined) is observed and compared with the class logic of the model",
     "values are strings, callbacks symbolic (initbuild)",
 ]
 LEVEL_TEXT = (
@@ -91,7 +93,7 @@ def make_case(hspec, ctor, ops, stream="valid"):
             "hspec": hspec, "ctor": ctor, "stream": stream}
     if built["err"] is not None:
         case.update({"init": _dummy_init(), "owner": 0, "hasDict": True, "slotNames": [], "names": sorted(UNKNOWN + [CACHE]),
-                     "gs": "other", "hashNames": None})
+                     "anySlots": False, "gs": cb.predicted_gs(tbl, 0, False), "hashNames": None})
         return case
     leaf, owner = built["leaf"], built["owner"]
     run, is_define, cls_on = ib.run_in(hspec)
@@ -104,7 +106,10 @@ def make_case(hspec, ctor, ops, stream="valid"):
         "hasDict": cb.has_dict(leaf),
         "slotNames": slots,
         "names": names,
-        "gs": cb.gs_kind(leaf, owner, slots),
+        "anySlots": cb.any_slots(leaf),
+        # predicted from the specification, never read off the real class: a class that resolves another
+        # state pair than predicted must show up as a wrong copy, not as a silently skipped operation
+        "gs": cb.predicted_gs(tbl, len(built["classes"]) - 1 - built["classes"].index(owner), cb.any_slots(leaf)),
         "hashNames": hnames,
         "hashable": hashable,
         "leafFrozen": leaf.__setattr__ is _frozen_setattrs and leaf.__delattr__ is _frozen_delattrs,
@@ -132,6 +137,11 @@ def _decorate_hspec(rng, h, stream):
             if cs.get("api") == "frozen":
                 cs["api"] = "define"
             cs["frozen"] = rng.choice([False, None]) if cs.get("api") == "define" else False
+    # a body __setattr__/__delattr__ that attrs overrides: frozen=True without auto_detect (attr.s family)
+    for cs in h["classes"]:
+        if (cs["kind"] == "attrs" and cs.get("frozen") is True and cs.get("api") in ("attr.s", "these", "make_class")
+                and not cs.get("auto_detect") and rng.random() < 0.06):
+            cs[rng.choice(["user_set", "user_del"])] = True
     ntail = rng.choice([0, 0, 0, 1, 1, 2])
     h["tail"] = [{"name": f"T{i}", "plain_slots": rng.random() < 0.4} for i in range(ntail)]
     # mixins
@@ -163,7 +173,29 @@ def _decorate_hspec(rng, h, stream):
                 h["tail"] = h["tail"] or [{"name": "T0", "plain_slots": False}]
                 h["tail"][0]["user_set"] = True
             else:
-                cs[rng.choice(["user_set", "user_del"])] = True
+                cs[rng.choice(["user_set", "user_set", "user_del"])] = True
+                # a hooked (attrs-made __setattr__) ancestor above the frozen class: the subclass inherits the
+                # __attrs_own_setattr__ marker, and the reset must not replace the body's method
+                top = h["classes"][0]
+                if first > 0 and top["kind"] == "attrs" and top.get("fields") and rng.random() < 0.6:
+                    top["cls_on_setattr"] = "hook"
+                elif rng.random() < 0.7:
+                    used = {(f.get("alias") or f["name"]).lstrip("_") for c in h["classes"] for f in c.get("fields", [])}
+                    used |= {f["name"].lstrip("_") for c in h["classes"] for f in c.get("fields", [])}
+                    free = [n for n in ib.FIELD_NAMES if n.lstrip("_") not in used]     # no init-alias clash (_p / p)
+                    if free:
+                        root = {"kind": "attrs", "name": "H0", "api": "attr.s", "slots": rng.choice([None, True, False]), "frozen": False,
+                                "kw_only": False, "cache_hash": False, "pre": "none", "post": False, "cls_on_setattr": "hook",
+                                "collect_by_mro": True, "exc_base": bool(top.get("exc_base")),
+                                "fields": [{"name": free[0], "default": "value", "init": True, "kw_only": True, "alias": None, "converter": None,
+                                            "validators": 0, "on_setattr": "unset", "type": None, "conv_type": False}]}
+                        if root["exc_base"]:
+                            root["auto_exc"] = None
+                        top["exc_base"] = False
+                        h["classes"].insert(0, root)
+                if cs.get("api") in ("attr.s", "these", "make_class") and rng.random() < 0.7:
+                    cs["slots"] = False
+                    cs["auto_detect"] = None
                 cs["frozen"] = False if cs.get("api") != "frozen" else None
                 if cs.get("api") == "frozen":
                     cs["api"] = "define"
@@ -174,8 +206,8 @@ def _decorate_hspec(rng, h, stream):
         cs = rng.choice(cands)
         how = rng.choice(["f8", "f8", "field", "cls", "userset"])
         if how == "f8":
-            used = {f["name"] for c in h["classes"] for f in c.get("fields", [])}
-            free = [n for n in ib.FIELD_NAMES if n not in used] or ["q9"]
+            used = {f["name"].lstrip("_") for c in h["classes"] for f in c.get("fields", [])}
+            free = [n for n in ib.FIELD_NAMES if n.lstrip("_") not in used] or ["q9"]
             cs["fields"].append({"name": free[0], "default": "none", "init": False, "kw_only": False, "alias": None,
                                  "converter": None, "validators": 0, "on_setattr": rng.choice(["hook", "hooks2", "validate", "noop"]),
                                  "type": None, "conv_type": False})
@@ -250,7 +282,7 @@ def gen_ops(case, rng, maxlen):
 
 
 def gen_cases(tier, rng):
-    n_h = 4000 if tier == "quick" else 120000
+    n_h = 4600 if tier == "quick" else 120000
     maxlen = 6 if tier == "quick" else 8
     per = 3 if tier == "quick" else 4
     for _ in range(n_h):
@@ -374,10 +406,17 @@ def _plain_value(inst, name, v):
     return v
 
 
-def _result(res, inst, names):
+def _result(res, inst, names, hashed=False):
     ib.SELF[0] = res
     vals = ib.read_values(res, names)
     flags = []
+    if hashed:
+        # the copy must hash through the generated __hash__ (its cache carried over or re-created)
+        try:
+            if hash(res) == hash(res):
+                flags.append("reshash")
+        except Exception:  # noqa: BLE001
+            pass
     if res is not inst and type(res) is type(inst):
         flags.append("fresh")
     try:
@@ -420,7 +459,7 @@ def apply_op(inst, op, case, toks, names):
             flags = ["stable"] if h1 == h2 else []
         elif op in ("copy", "deepcopy"):
             res = copy.copy(inst) if op == "copy" else copy.deepcopy(inst)
-            values, flags = _result(res, inst, names)
+            values, flags = _result(res, inst, names, case.get("hashNames") is not None)
         elif op == "raise_":
             try:
                 raise inst
@@ -450,7 +489,7 @@ def apply_op(inst, op, case, toks, names):
                 _aug(inst, a["name"], a["v"])
             elif k == "pickle":
                 res = _pickle_roundtrip(inst, a["proto"])
-                values, flags = _result(res, inst, names)
+                values, flags = _result(res, inst, names, case.get("hashNames") is not None)
             elif k == "evolve":
                 ib.SELF[0] = None
                 ib.SELF_CLASS[0] = type(inst)
@@ -483,7 +522,7 @@ def observe(case):
     built = cb.build(h)
     if built["err"] is not None:
         i, e = built["err"]
-        return {"defErr": {"idx": i, "exc": ib.exc_enum(e)}, "ctor": None, "start": None, "steps": []}
+        return {"defErr": {"idx": i, "exc": ib.exc_enum(e)}, "rset": None, "rdel": None, "ctor": None, "start": None, "steps": []}
     leaf, owner = built["leaf"], built["owner"]
     call = case["ctor"]
     main_leaf = h["classes"][-1]
@@ -493,6 +532,7 @@ def observe(case):
     except Exception:  # noqa: BLE001
         names = []
     slot_names = cb.slot_names(leaf)
+    rset, rdel = cb.resolved_kinds(leaf)
     toks = {"E1": ValueError("E1"), "E2": KeyError("E2"), "tb": _tb_object()}
     del ib.TRACE[:]
     ib.FAULT[0] = None
@@ -508,13 +548,13 @@ def observe(case):
             ctor = ib.exc_enum(e)
         del ib.TRACE[:]
         if ctor is not None:
-            return {"defErr": None, "ctor": ctor, "start": None, "steps": []}
+            return {"defErr": None, "rset": rset, "rdel": rdel, "ctor": ctor, "start": None, "steps": []}
         start = snapshot(inst, slot_names, toks)
         steps = []
         for op in case["ops"]:
             exc, values, flags = apply_op(inst, op, case, toks, names)
             steps.append({"exc": exc, "snap": snapshot(inst, slot_names, toks), "values": values, "flags": sorted(flags)})
-        return {"defErr": None, "ctor": None, "start": start, "steps": steps}
+        return {"defErr": None, "rset": rset, "rdel": rdel, "ctor": None, "start": start, "steps": steps}
     finally:
         attr.validators.set_disabled(prev)
         ib.SELF[0] = None
